@@ -45,7 +45,8 @@ def mk_pval(I, e):
         if cid is None or not c.external:
             return False
         return B.wrap(TYPEIS(e, cid))
-    attrs = {"is_none": lambda: e == PNONE, "isinstance": isinst}
+    TYPEOF = z3.Function("PVAL_TYPE", e.sort(), z3.IntSort())
+    attrs = {"is_none": lambda: e == PNONE, "isinstance": isinst, "type_token": lambda: Opaque(TYPEOF(e), "type-of-a-parameter-value", {})}
     v = Opaque(e, "pval", attrs)
     attrs["none_value"] = None
     return v
@@ -276,14 +277,33 @@ class ParamGetAtInstant(Contract):
     loop_heads = {0: 'for value_at_instant in self.values_list'}
     prop = ("C06",)
     top_level = True
-    descr = "value at a date = value of the most recent entry on or before it; undefined (None) before the first entry"
+    cases = (None, "read-before-and-the-history-replaced-by-one-as-long")
+    descr = ("value at a date = value of the most recent entry on or before it; undefined (None) before the first entry - of the "
+             "history the parameter has at the time of the read, also when it was read before and its history has been replaced "
+             "since by another one with as many entries (what Parameter.update does when it moves a date)")
 
     def setup(self, I, ctx, case):
         h = History(I, ctx)
         ctx.ghost["H"] = h
         d = ctx.fresh_int("d")
         ctx.assume(z3.And(d >= 10000101, d <= 99991231))
-        return {"self": mk_parameter(I, SymList(h.seq)), "instant": IsoStr(key=d), "__H": h}
+        param = mk_parameter(I, SymList(h.seq))
+        if case is not None:
+            h0 = History(I, ctx, tag="H_before")
+            ctx.assume(h0.n == h.n)
+            param.fields["values_list"] = SymList(h0.seq)
+            d0 = ctx.fresh_int("d_before")
+            ctx.assume(z3.And(d0 >= 10000101, d0 <= 99991231))
+            ctx.ghost["H"] = h0
+            f, _ = self.target(I)
+            ctx.depth += 1
+            try:
+                I.inline_call(ctx, f, [], {"self": param, "instant": IsoStr(key=d0)})
+            finally:
+                ctx.depth -= 1
+            ctx.ghost["H"] = h
+            param.fields["values_list"] = SymList(h.seq)        # update() rebinds values_list to a new list
+        return {"self": param, "instant": IsoStr(key=d), "__H": h}
 
     def _inv(self, ctx, I, vars):
         n, key, val = view(I, ctx, vars["self"].fields["values_list"])
@@ -352,7 +372,7 @@ class ParamUpdate(Contract):
     loop_heads = {0: 'while i < n and old_values[i].instant_str >= stop_str',
                   1: 'while i < n and old_values[i].instant_str >= start_str',
                   2: 'while i < n'}
-    prop = ("C06",)
+    prop = ("C06", "C14")
     top_level = True
     cases = tuple(("period", u) for u in DATED_UNITS) + ("start-stop", "start-only", "period-and-start", "period-and-stop", "nothing", "stop-only")
     descr = ("update makes the parameter equal to the new value on every date of the range and leaves its value on every "
